@@ -109,8 +109,13 @@ def cause_of(origin):
     for f in reversed(origin):
         if f.startswith('errors::'):
             continue
-        return f.split('::{closure')[0]
+        c = f.split('::{closure')[0]
+        CAUSE_STACKS.setdefault(c, set()).add(tuple(x.split('::{closure')[0] for x in origin if not x.startswith('errors::')))
+        return c
     return None
+
+
+CAUSE_STACKS = {}      # innermost function -> the call stacks (outermost first) in which it created an error value
 
 
 def site_obl(I, site, kind, sub=None):
@@ -453,6 +458,40 @@ def m_abs(I, st, args, dty, site):
     return _abs_split(I, st, a, a[2], tr[1])
 
 
+@model_if(lambda n: n.startswith('core::num::<impl ') and n.endswith('::abs_diff'))
+def m_abs_diff(I, st, args, dty, site):
+    a, b = args[0], args[1]
+    if not (_intarg(a) and _intarg(b)):
+        return None
+    tn = tyname(dty)
+    rty = ty_of_name(tn)
+    outs = []
+    for op, x, y in (('Ge', a, b), ('Lt', a, b)):
+        s2 = st.clone()
+        if not D.refine_cmp(s2, op, a[1], b[1]):
+            continue
+        hi_, lo_ = (x, y) if op == 'Ge' else (y, x)
+        # the difference of the larger and the smaller operand, computed without overflow in the unsigned result type
+        lh, ll = D.get_iv(s2, hi_[1]), D.get_iv(s2, lo_[1])
+        v = D.term_vid(s2, ('Sub', hi_[1], lo_[1]), max(lh[0] - ll[1], 0), max(lh[1] - ll[0], 0), D.aff_add(D.aff_of(hi_[1]), D.aff_of(lo_[1]), -1))
+        outs.append((s2, ('i', v, tn)))
+    return outs
+
+
+@model_if(lambda n: n.startswith('core::num::<impl ') and n.endswith('::signum'))
+def m_signum(I, st, args, dty, site):
+    a = args[0]
+    if not _intarg(a):
+        return None
+    outs = []
+    z = const_int(0, a[2])
+    for op, val in (('Lt', -1), ('Eq', 0), ('Gt', 1)):
+        s2 = st.clone()
+        if D.refine_cmp(s2, op, a[1], z[1]):
+            outs.append((s2, const_int(val, a[2])))
+    return outs
+
+
 @model_if(lambda n: n.startswith('core::num::<impl ') and n.endswith('::rem_euclid'))
 def m_rem_euclid(I, st, args, dty, site):
     a, b = args[0], args[1]
@@ -705,6 +744,26 @@ def m_partial_ord_default(I, st, args, dty, site):
                 else:
                     outs.append((s2, I.top(s2, {'k': 'bool'}, 'cmp')))
             return outs
+    return None
+
+
+@model_if(lambda n: n.startswith('std::cmp::impls::<impl std::cmp::PartialOrd<&B> for &A>::') and n.rsplit('::', 1)[1] in ('lt', 'le', 'gt', 'ge'))
+def m_ref_ord(I, st, args, dty, site):
+    a, b = deref(I, st, args[0]), deref(I, st, args[1])
+    # references compare like what they point to (possibly through several levels of reference)
+    for _ in range(3):
+        if a is not None and a[0] == 'r':
+            a = deref(I, st, a)
+        if b is not None and b[0] == 'r':
+            b = deref(I, st, b)
+    which = site['callee'].rsplit('::', 1)[1]
+    if _intarg(a) and _intarg(b):
+        return [(st, I.binop(st, {'lt': 'Lt', 'le': 'Le', 'gt': 'Gt', 'ge': 'Ge'}[which], a, b, {'k': 'bool'}, None, None))]
+    if a is not None and b is not None and a[0] == 't' and b[0] == 't':
+        r = _lex_ordering(I, st, list(a[1]), list(b[1]))
+        if r is not None:
+            truth = {'lt': {0}, 'le': {0, 1}, 'gt': {2}, 'ge': {1, 2}}[which]
+            return [(s, const_int(1 if vi in truth else 0, 'bool')) for s, vi in r]
     return None
 
 
@@ -1216,6 +1275,43 @@ def m_range_contains(I, st, args, dty, site):
 def m_enumerate(I, st, args, dty, site):
     it = as_iter(I, st, args[0]) or ('it', 'unk', None, None)
     return [(st, ('it', 'enum', it, 0 if it[0] == 'it' and it[1] == 'seq' else None))]
+
+
+@model('std::iter::Iterator::skip', 'std::iter::Iterator::take', 'std::iter::Iterator::skip_while', 'std::iter::Iterator::step_by_dummy')
+def m_iter_skip_take(I, st, args, dty, site):
+    """adapters that only drop items: a known sequence stays known (constant count), anything else yields at most what the base yields"""
+    it = as_iter(I, st, args[0])
+    which = site['callee'].rsplit('::', 1)[1]
+    n = args[1] if len(args) > 1 else None
+    if it is not None and it[0] == 'it' and it[1] == 'seq' and which in ('skip', 'take') and _intarg(n):
+        lo, hi = D.get_iv(st, n[1])
+        if lo == hi:
+            k = int(lo)
+            rest = it[2][it[3]:]
+            return [(st, ('it', 'seq', tuple(rest[k:] if which == 'skip' else rest[:k]), 0, it[4]))]
+    if which == 'skip_while' and len(args) > 1:
+        s = st.clone()
+        item = probe_item(I, s, it, args[1])
+        _closure_probe(I, s, args[1], [('r', I.alloc(s, item))], site)
+    bound = None
+    if it is not None and it[0] == 'it' and it[1] == 'unk' and len(it) > 3 and it[3] is not None:
+        bound = it[3]
+    elif it is not None and it[0] == 'it' and it[1] == 'unk' and len(it) > 5 and it[5] is not None and it[5][0] == 'atmost':
+        bound = it[5][1]
+    elif it is not None and it[0] == 'it' and it[1] == 'chars':
+        bound = it[2].len
+    ity = it[2] if it is not None and it[0] == 'it' and it[1] == 'unk' and len(it) > 2 else ({'k': 'char'} if it is not None and it[0] == 'it' and it[1] == 'chars' else None)
+    if which == 'take' and _intarg(n) and bound is None:
+        return [(st, ('it', 'unk', ity, None, None, ('atmost', n[1])))]
+    return [(st, ('it', 'unk', ity, None, None, ('atmost', bound)) if bound is not None else ('it', 'unk', ity, None))]
+
+
+@model('std::iter::Iterator::chain')
+def m_iter_chain(I, st, args, dty, site):
+    a, b = as_iter(I, st, args[0]), as_iter(I, st, args[1])
+    if a is not None and b is not None and a[0] == b[0] == 'it' and a[1] == b[1] == 'seq' and a[4] == b[4]:
+        return [(st, ('it', 'seq', tuple(a[2][a[3]:]) + tuple(b[2][b[3]:]), 0, a[4]))]
+    return [(st, ('it', 'unk', None, None))]
 
 
 @model('std::iter::Iterator::rev')
@@ -2200,11 +2296,31 @@ def m_opt_filter(I, st, args, dty, site):
     v, clo = args[0], args[1]
     if v[0] != 'e':
         return None
-    outs = [(st.clone(), none())]
+    outs = []
+    if 0 in v[2]:
+        outs.append((st.clone(), none()))
     if 1 in v[2]:
+        # Some(x) stays exactly when the predicate holds for x: the paths of the predicate decide
         s2 = st.clone()
-        I.call_closure(s2, clo, [('r', I.alloc(s2, v[2][1][0]))], site)
-        outs.append((st.clone(), some(v[2][1][0])))
+        rs = I.call_closure(s2, clo, [('r', I.alloc(s2, v[2][1][0]))], site)
+        if rs is None:
+            return [(st.clone(), none()), (st.clone(), some(v[2][1][0]))]
+        for s3, b in rs:
+            if b[0] != 'i':
+                outs.append((s3.clone(), none()))
+                outs.append((s3, some(v[2][1][0])))
+                continue
+            lo, hi = D.get_iv(s3, b[1])
+            for val in (0, 1):
+                if lo <= val <= hi:
+                    s4 = s3.clone()
+                    if not D.set_iv(s4, b[1], val, val):
+                        continue
+                    t_ = D.TERM.get(b[1])
+                    if t_ is not None and t_[0] in D.NEG and isinstance(t_[1], int) and isinstance(t_[2], int):
+                        if not D.refine_cmp(s4, t_[0] if val else D.NEG[t_[0]], t_[1], t_[2]):
+                            continue
+                    outs.append((s4, some(v[2][1][0]) if val else none()))
     return outs
 
 
@@ -2228,6 +2344,168 @@ def m_copied(I, st, args, dty, site):
     for vi, fs in v[2].items():
         vs[vi] = tuple(deref(I, st, f) for f in fs)
     return [(st, ('e', v[1], vs))]
+
+
+def _opt_variants(I, st, v, dty_hint=None):
+    """[(state, payload | None)] for an Option value (a value the analysis knows nothing about is split into None / Some(top))"""
+    if v is not None and v[0] == 'e' and v[1] == OPTION:
+        outs = []
+        if 0 in v[2]:
+            outs.append((st.clone(), None))
+        if 1 in v[2]:
+            outs.append((st.clone(), v[2][1][0]))
+        return outs
+    return None
+
+
+@model_if(lambda n: n.startswith('std::option::Option::<') and n.endswith('>::cloned') or n.startswith('std::option::Option::<') and n.endswith('>::copied'))
+def m_copied_any(I, st, args, dty, site):
+    return m_copied(I, st, args, dty, site)
+
+
+@model_if(lambda n: n.startswith('std::option::Option::<') and n.endswith('>::zip'))
+def m_opt_zip(I, st, args, dty, site):
+    a, b = _opt_variants(I, st, args[0]), _opt_variants(I, st, args[1])
+    if a is None or b is None:
+        return None
+    outs = []
+    for _s, x in a:
+        for _s2, y in b:
+            s3 = st.clone()
+            outs.append((s3, some(('t', (x, y))) if (x is not None and y is not None) else none()))
+    return outs
+
+
+@model_if(lambda n: n.startswith('std::option::Option::<') and n.endswith('>::flatten'))
+def m_opt_flatten(I, st, args, dty, site):
+    a = _opt_variants(I, st, args[0])
+    if a is None:
+        return None
+    outs = []
+    for s2, x in a:
+        if x is None:
+            outs.append((s2, none()))
+        else:
+            inner = _opt_variants(I, s2, x)
+            if inner is None:
+                return None
+            for s3, y in inner:
+                outs.append((s3, none() if y is None else some(y)))
+    return outs
+
+
+@model_if(lambda n: n.startswith('std::option::Option::<') and n.endswith('>::transpose'))
+def m_opt_transpose(I, st, args, dty, site):
+    a = _opt_variants(I, st, args[0])
+    if a is None:
+        return None
+    outs = []
+    for s2, x in a:
+        if x is None:
+            outs.append((s2, ok(none())))
+        elif x[0] == 'e' and x[1] == RESULT:
+            if 0 in x[2]:
+                outs.append((s2.clone(), ok(some(x[2][0][0]))))
+            if 1 in x[2]:
+                outs.append((s2.clone(), err(x[2][1][0])))
+        else:
+            return None
+    return outs
+
+
+@model_if(lambda n: n.startswith('std::option::Option::<') and n.rsplit('::', 1)[1] in ('or', 'and', 'xor'))
+def m_opt_or_and(I, st, args, dty, site):
+    a, b = _opt_variants(I, st, args[0]), args[1]
+    if a is None:
+        return None
+    which = site['callee'].rsplit('::', 1)[1]
+    if which == 'xor':
+        return None
+    outs = []
+    for s2, x in a:
+        if which == 'or':
+            outs.append((s2, some(x) if x is not None else b))
+        else:
+            outs.append((s2, none() if x is None else b))
+    return outs
+
+
+@model_if(lambda n: n.startswith('std::option::Option::<') and n.endswith('>::or_else'))
+def m_opt_or_else(I, st, args, dty, site):
+    a = _opt_variants(I, st, args[0])
+    if a is None:
+        return None
+    outs = []
+    for s2, x in a:
+        if x is not None:
+            outs.append((s2, some(x)))
+        else:
+            r = I.call_closure(s2, args[1], [], site)
+            if r is None:
+                return None
+            outs.extend(r)
+    return outs
+
+
+@model('std::prelude::v1::Some', 'std::option::Option::Some', 'core::option::Option::Some')
+def m_some_fn(I, st, args, dty, site):
+    return [(st, some(args[0]))]
+
+
+@model('std::prelude::v1::Ok', 'std::result::Result::Ok', 'core::result::Result::Ok')
+def m_ok_fn(I, st, args, dty, site):
+    return [(st, ok(args[0]))]
+
+
+@model('std::prelude::v1::Err', 'std::result::Result::Err', 'core::result::Result::Err')
+def m_err_fn(I, st, args, dty, site):
+    return [(st, err(args[0]))]
+
+
+@model('std::cmp::PartialEq::ne', 'std::cmp::PartialEq::eq')
+def m_partial_eq_default(I, st, args, dty, site):
+    """the trait method called generically: integers, chars and field-less enum values compare by value; a crate type through its own eq"""
+    a, b = deref(I, st, args[0]), deref(I, st, args[1])
+    for _ in range(2):
+        if a is not None and a[0] == 'r':
+            a = deref(I, st, a)
+        if b is not None and b[0] == 'r':
+            b = deref(I, st, b)
+    ne = site['callee'].endswith('::ne')
+    if _intarg(a) and _intarg(b):
+        return [(st, I.binop(st, 'Ne' if ne else 'Eq', a, b, {'k': 'bool'}, None, None))]
+    if a is not None and b is not None and a[0] == 'e' and b[0] == 'e' and a[1] == b[1] and all(not fs for fs in a[2].values()) and all(not fs for fs in b[2].values()):
+        outs = []
+        for va in a[2]:
+            for vb in b[2]:
+                outs.append((st.clone(), const_int(1 if ((va == vb) != ne) else 0, 'bool')))
+        return outs
+    if a is not None and a[0] in ('s', 'e'):
+        cand = f'<{a[1]} as std::cmp::PartialEq>::eq'
+        if cand in I.bodies:
+            outs = []
+            for s2, v in I.call_body(st, cand, [args[0], args[1]], site):
+                if ne and v[0] == 'i':
+                    v = I.binop(s2, 'Eq', v, const_int(0, 'bool'), {'k': 'bool'}, None, None)
+                outs.append((s2, v))
+            return outs
+    return [(st, I.top(st, {'k': 'bool'}, 'eq'))]
+
+
+@model('core::str::<impl str>::split_once', 'core::str::<impl str>::rsplit_once')
+def m_split_once(I, st, args, dty, site):
+    sv = strv_of(I, st, args[0])
+    if sv is None:
+        return None
+    s1, s2 = st.clone(), st.clone()
+    hi = D.get_iv(s2, sv.len)[1]
+    a = I.fresh_str(s2, 'before', 0, hi)
+    b = I.fresh_str(s2, 'after', 0, hi)
+    for x in (a, b):
+        if sfacts(st, sv)['ascii']:
+            x.ascii = True
+        D.rel_set(s2, x.len, sv.len, '<=')
+    return [(s1, none()), (s2, some(('t', (('str', a), ('str', b)))))]
 
 
 @model('<std::option::Option<T> as std::cmp::PartialEq>::eq')
